@@ -437,3 +437,56 @@ def r03_15_duration_truncated_views(ctx: Ctx) -> RuleResult:
         else:
             rr.fail(fn.qual if td == (d if d >= 0 or n == 0 else d + 1) else fd.qual, f"floor representation ({d} days, {n} ns) = {total} ns in total, but days = {td} and nanosecond_of_day = {tn} (sum {td * npd + tn}; |nanosecond_of_day| must be < {npd} with the sign of the total)", ctx.loc(fn))
     return rr
+
+
+# ------------------------------------------------------------------------------------------- R03.16 unit factories split exactly
+
+
+@rule("C03")
+def r03_16_unit_factories_split_exactly(ctx: Ctx) -> RuleResult:
+    """Duration.from_hours / minutes / seconds / milliseconds / ticks / nanoseconds (integer path) store (floor days, nanosecond of
+    day): the abstract interpreter evaluates each factory on exact arguments - zero, small and large, positive and negative, exact
+    and inexact multiples of a day - and the stored pair must satisfy days * NPD + nano == amount * unit with 0 <= nano < NPD.
+    Truncating the day count while taking a floor remainder (or the reverse) is off by a whole day for negative amounts only."""
+    from ..absint import Iv, Obj
+    from ..oblig import interp
+
+    rr = RuleResult("R03.16", "integer unit factories of Duration store an exact (floor days, nanosecond-of-day) split of amount x unit for every probed amount, negative ones included", min_instances=5)
+    M = ctx.M
+    c = M.cls("Duration")
+    npd = M.fold_class_const("PyodaConstants", "NANOSECONDS_PER_DAY")
+    units = {"from_days": npd, "from_hours": "NANOSECONDS_PER_HOUR", "from_minutes": "NANOSECONDS_PER_MINUTE", "from_seconds": "NANOSECONDS_PER_SECOND",
+             "from_milliseconds": "NANOSECONDS_PER_MILLISECOND", "from_ticks": "NANOSECONDS_PER_TICK", "from_nanoseconds": 1}
+    for name, u in units.items():
+        f = M.find_meta_method(c, name) or M.find_method(c, name)
+        unit = M.fold_class_const("PyodaConstants", u) if isinstance(u, str) else u
+        if f is None or not isinstance(unit, int):
+            continue
+        rr.inst()
+        bad = None
+        per_day = npd // unit
+        for amount in (0, 1, -1, 5, -5, per_day, -per_day, per_day + 1, -per_day - 1, -per_day + 1, 3 * per_day + 7, -3 * per_day - 7, -2 * per_day):
+            I = interp(ctx)
+            I.max_depth = 6
+            rets, _ = I.analyse(f, params={f.value_params[0].arg: Iv(amount, amount)})
+            rr.states += 1
+            pairs = set()
+            for v, _x in rets:
+                fl = getattr(v, "fields", None)
+                if fl is None:
+                    pairs.add(("?", repr(v)[:40]))
+                    continue
+                d = next((x for k, x in fl.items() if k.endswith("__days")), None)
+                n = next((x for k, x in fl.items() if k.endswith("__nano_of_day")), None)
+                if isinstance(d, Iv) and isinstance(n, Iv) and d.lo == d.hi and n.lo == n.hi:
+                    pairs.add((int(d.lo), int(n.lo)))
+                else:
+                    pairs.add(("?", f"{d}/{n}"))
+            want = divmod(amount * unit, npd)
+            if pairs != {want}:
+                bad = bad or (amount, sorted(pairs, key=str), want)
+        if bad is None:
+            rr.ok({"factory": f.qual, "unit_ns": unit})
+        else:
+            rr.fail(f.qual, f"{name}({bad[0]}) stores (days, nanosecond of day) = {bad[1]}; the exact floor split of {bad[0]} x {unit} ns is {bad[2]}", ctx.loc(f))
+    return rr
